@@ -36,7 +36,7 @@ for name, j in rows:
 out += ["", f"Confirmed: {n_conf} of {len(rows)}; caught by at least one check: {n_caught}; caught by the check of the property they were aimed at: {n_own}.", ""]
 # behaviour-preserving changes: every check must stay silent
 ben = []
-for d in sorted(glob.glob(f"{ROOT}/seeded/benign/B*-*")):
+for d in sorted(glob.glob(f"{ROOT}/seeded/benign/B*-*")) + sorted(glob.glob(f"{ROOT}/seeded/benign/T*-*")):
     m = f"{d}/meta.json"
     if os.path.exists(m):
         ben.append((os.path.basename(d), json.load(open(m))))
